@@ -55,6 +55,12 @@ B = [
     ("config_comment_out_keepends", [("aw_core/config.py", "    return \"\\n\".join(\n        [\n            \"#\" + line if line.strip() and not line.strip().startswith(\"[\") else line\n            for line in s.split(\"\\n\")\n        ]\n    )", "    out = []\n    for line in s.split(\"\\n\"):\n        stripped = line.strip()\n        if stripped and not stripped.startswith(\"[\"):\n            line = \"#\" + line\n        out.append(line)\n    return \"\\n\".join(out)")]),
     ("heartbeat_merge_max_as_if", [("aw_transform/heartbeats.py", "                last_event.duration = max((last_event.duration, new_duration))", "                if new_duration > last_event.duration:\n                    last_event.duration = new_duration")]),
     ("query_bucket_parse_once", [("aw_query/functions.py", "    _verify_bucket_exists(datastore, bucketname)\n    try:\n        starttime = iso8601.parse_date(namespace[\"STARTTIME\"])\n        endtime = iso8601.parse_date(namespace[\"ENDTIME\"])", "    _verify_bucket_exists(datastore, bucketname)\n    try:\n        starttime, endtime = (iso8601.parse_date(namespace[k]) for k in (\"STARTTIME\", \"ENDTIME\"))")]),
+    ("sqlite_commit_retries_when_locked", [(SQ, "        self.conn.commit()\n        self.last_commit = datetime.now()", "        for attempt in range(3):\n            try:\n                self.conn.commit()\n                break\n            except sqlite3.OperationalError:\n                if attempt == 2:\n                    raise\n        self.last_commit = datetime.now()")]),
+    ("create_bucket_created_as_utc", [(DS, "        created = created or datetime.now(timezone.utc)\n", "        created = (created or datetime.now(timezone.utc)).astimezone(timezone.utc)\n")]),
+    ("peewee_refresh_keys_on_create_and_delete_twice", [(PW, "            datastr=json.dumps(data or {}),\n        )\n        self.update_bucket_keys()", "            datastr=json.dumps(data or {}),\n        )\n        self.update_bucket_keys()\n        self.update_bucket_keys()")]),
+    ("sqlite_insert_one_returning", [(SQ, "            + \"VALUES ((SELECT rowid FROM buckets WHERE id = ?), ?, ?, ?)\",\n            [bucket_id, starttime, endtime, datastr],\n        )\n        event.id = c.lastrowid", "            + \"VALUES ((SELECT rowid FROM buckets WHERE id = ?), ?, ?, ?) RETURNING id\",\n            [bucket_id, starttime, endtime, datastr],\n        )\n        event.id = c.fetchone()[0]")]),
+    ("sqlite_rejects_with_valueerror", [(SQ, "        self.conn.executemany(query, event_rows)\n        self.conditional_commit(len(event_rows))", "        try:\n            self.conn.executemany(query, event_rows)\n        except sqlite3.IntegrityError as e:\n            raise ValueError(\"Bucket did not exist, could not insert\") from e\n        self.conditional_commit(len(event_rows))")]),
+    ("config_first_run_file_trailing_newline", [("aw_core/config.py", "            f.write(_comment_out_toml(default_config))", "            f.write(_comment_out_toml(default_config).rstrip(\"\\n\") + \"\\n\")")]),
 ]
 
 
